@@ -205,6 +205,143 @@ theorem hop_is_range (e : Err) :
       (wireStatus table e == 416 || wireCode e == codeRangeInvalid) := by
   simp [hop_eq, is]
 
+/-! ### "After one or several hops": the n-hop corollaries
+
+Status, code and the answers of `errors.Is` after `n ≥ 1` hops are those after one
+hop for EVERY compaction (no idempotence needed: they do not depend on the
+detail); the detail needs the idempotence `hop_idempotent` needs. -/
+
+/-- `n + 1` hops end with a hop. -/
+theorem hops_last (n : Nat) (e : Err) :
+    hops S C compact table stdMsg false (n + 1) e =
+      hop S C compact table stdMsg false (hops S C compact table stdMsg false n e) := by
+  induction n generalizing e with
+  | zero => simp [hops]
+  | succ n ih => rw [hops, ih, ← hops]
+
+/-- The code a second hop puts on the wire is the code the first one did. -/
+theorem wireCode_hop (e : Err) : wireCode (hop S C compact table stdMsg false e) = wireCode e := by
+  have h1 : codeOf (hop S C compact table stdMsg false e) = wireCode e := by simp [hop_eq, codeOf, asOci]
+  rw [wireCode, h1, if_neg (wireCode_ne_nil e)]
+
+/-- … and so is the status. -/
+theorem wireStatus_hop (e : Err) :
+    wireStatus table (hop S C compact table stdMsg false e) = wireStatus table e := by
+  unfold wireStatus
+  rw [wireCode_hop]
+  cases h : tableStatus table (wireCode e) with
+  | some s => rfl
+  | none =>
+    have hr := ownStatus_error_status e
+    simp only [hop_eq, wireStatus, h]
+    generalize ownStatus e = s at hr
+    simp [ownStatus, asHTTP, hr.1, hr.2]
+
+theorem wireCode_hops (n : Nat) (e : Err) :
+    wireCode (hops S C compact table stdMsg false n e) = wireCode e := by
+  induction n generalizing e with
+  | zero => rfl
+  | succ n ih => rw [hops, ih, wireCode_hop]
+
+theorem wireStatus_hops (n : Nat) (e : Err) :
+    wireStatus table (hops S C compact table stdMsg false n e) = wireStatus table e := by
+  induction n generalizing e with
+  | zero => rfl
+  | succ n ih => rw [hops, ih, wireStatus_hop]
+
+/-- `hop_status` after any number `n ≥ 1` of hops: the status is the one the first
+hop gave (the table's status for the code, else the error's own). -/
+theorem hops_status (n : Nat) (h1 : 1 ≤ n) (e : Err) :
+    asHTTP (hops S C compact table stdMsg false n e) = some (wireStatus table e) := by
+  obtain ⟨m, rfl⟩ : ∃ m, n = m + 1 := ⟨n - 1, by omega⟩
+  rw [hops_last, hop_status, wireStatus_hops]
+
+/-- `hop_code` after `n ≥ 1` hops. -/
+theorem hops_code (n : Nat) (h1 : 1 ≤ n) (e : Err) :
+    codeOf (hops S C compact table stdMsg false n e) = (if codeOf e = [] then codeUnknown else codeOf e) := by
+  obtain ⟨m, rfl⟩ : ∃ m, n = m + 1 := ⟨n - 1, by omega⟩
+  have h : codeOf (hops S C compact table stdMsg false (m + 1) e) = wireCode e := by
+    rw [hops_last, ← wireCode_hops S C compact table stdMsg m e]
+    simp [hop_eq, codeOf, asOci]
+  rw [h, wireCode]
+
+/-- `hop_status_table` after `n ≥ 1` hops: the status is the one the table assigns
+to the code the client sees. -/
+theorem hops_status_table (n : Nat) (h1 : 1 ≤ n) (e : Err) (s : Nat)
+    (h : tableStatus table (codeOf (hops S C compact table stdMsg false n e)) = some s) :
+    asHTTP (hops S C compact table stdMsg false n e) = some s := by
+  rw [hops_status S C compact table stdMsg n h1]
+  rw [hops_code S C compact table stdMsg n h1, ← wireCode] at h
+  simp [wireStatus, h]
+
+/-- `hop_status_own` after `n ≥ 1` hops. -/
+theorem hops_status_own (n : Nat) (h1 : 1 ≤ n) (e : Err)
+    (h : tableStatus table (codeOf (hops S C compact table stdMsg false n e)) = none) :
+    asHTTP (hops S C compact table stdMsg false n e) = some (ownStatus e) := by
+  rw [hops_status S C compact table stdMsg n h1]
+  rw [hops_code S C compact table stdMsg n h1, ← wireCode] at h
+  simp [wireStatus, h]
+
+/-- `hop_detail` after `n ≥ 1` hops, for an idempotent compaction: the detail is
+the original compacted once. -/
+theorem hops_detail (hc : ∀ d, compact (compact d) = compact d) (n : Nat) (h1 : 1 ≤ n) (e : Err) :
+    detailOf (hops S C compact table stdMsg false n e) = (detailOf e).map compact := by
+  obtain ⟨m, rfl⟩ : ∃ m, n = m + 1 := ⟨n - 1, by omega⟩
+  rw [hops_succ S C compact table stdMsg hc, hop_detail]
+
+/-- What `errors.Is` answers after a hop depends only on the status and code put on
+the wire — for every target, `ErrRangeInvalid` included. -/
+theorem hop_is_congr (c : Bytes) (e e' : Err)
+    (hst : wireStatus table e = wireStatus table e') (hcode : wireCode e = wireCode e') :
+    is c (hop S C compact table stdMsg false e) = is c (hop S C compact table stdMsg false e') := by
+  simp [hop_eq, is, hst, hcode]
+
+/-- After `n ≥ 1` hops `errors.Is` answers what it answers after one hop: for every
+target `c` (the deviation F10 for `ErrRangeInvalid` is made by the first hop and
+not changed by later ones), every error, every compaction. -/
+theorem hops_is_one (c : Bytes) (n : Nat) (h1 : 1 ≤ n) (e : Err) :
+    is c (hops S C compact table stdMsg false n e) = is c (hop S C compact table stdMsg false e) := by
+  obtain ⟨m, rfl⟩ : ∃ m, n = m + 1 := ⟨n - 1, by omega⟩
+  rw [hops_last]
+  exact hop_is_congr S C compact table stdMsg c _ _ (wireStatus_hops S C compact table stdMsg m e)
+    (wireCode_hops S C compact table stdMsg m e)
+
+/-- **Identity across the wire, any number of hops** — `hop_is` under exactly its
+hypotheses: for every standard error value other than `ErrRangeInvalid`, `errors.Is`
+gives after `n ≥ 1` hops the answer it gives on the original error. -/
+theorem hops_is (c : Bytes) (hr : c ≠ codeRangeInvalid) (hn : c ≠ []) (hu : c ≠ codeUnknown)
+    (n : Nat) (h1 : 1 ≤ n) (e : Err) (hs : Shape e) :
+    is c (hops S C compact table stdMsg false n e) = is c e := by
+  rw [hops_is_one S C compact table stdMsg c n h1, hop_is S C compact table stdMsg c hr hn hu e hs]
+
+/-- `hop_is_range` after `n ≥ 1` hops. -/
+theorem hops_is_range (n : Nat) (h1 : 1 ≤ n) (e : Err) :
+    is codeRangeInvalid (hops S C compact table stdMsg false n e) =
+      (wireStatus table e == 416 || wireCode e == codeRangeInvalid) := by
+  rw [hops_is_one S C compact table stdMsg _ n h1, hop_is_range]
+
+/-- All of it in the words of the property: after `n ≥ 1` hops the status, the code,
+the detail and every answer of `errors.Is` are those after one hop. -/
+theorem hops_same_as_one_hop (hc : ∀ d, compact (compact d) = compact d) (n : Nat) (h1 : 1 ≤ n) (e : Err) :
+    asHTTP (hops S C compact table stdMsg false n e) = asHTTP (hop S C compact table stdMsg false e) ∧
+    codeOf (hops S C compact table stdMsg false n e) = codeOf (hop S C compact table stdMsg false e) ∧
+    detailOf (hops S C compact table stdMsg false n e) = detailOf (hop S C compact table stdMsg false e) ∧
+    ∀ c, is c (hops S C compact table stdMsg false n e) = is c (hop S C compact table stdMsg false e) := by
+  refine ⟨?_, ?_, ?_, fun c => hops_is_one S C compact table stdMsg c n h1 e⟩
+  · rw [hops_status S C compact table stdMsg n h1, hop_status]
+  · rw [hops_code S C compact table stdMsg n h1, hop_code]
+  · rw [hops_detail S C compact table stdMsg hc n h1, hop_detail]
+
+/-- Non-vacuity of the n-hop corollaries: three hops of a wrapped `ErrBlobUnknown`
+with a detail, through the generated table and the real compaction; `hops_is`'s
+hypotheses hold of it and the three observations are what the theorems say. -/
+example :
+    let e : Err := .wrapf (strBytes "ctx: ") (.http 404 (.wire (strBytes "BLOB_UNKNOWN", strBytes "m", some (strBytes "{ }")))) []
+    (1 ≤ 3) ∧ Shape e ∧ strBytes "BLOB_UNKNOWN" ≠ codeRangeInvalid ∧ strBytes "BLOB_UNKNOWN" ≠ [] ∧
+    strBytes "BLOB_UNKNOWN" ≠ codeUnknown ∧ wireStatus genTable e = 404 ∧
+    tableStatus genTable (strBytes "BLOB_UNKNOWN") = some 404 ∧ detailOf e = some (strBytes "{ }") :=
+  ⟨by decide, .wrapf _ _ (.http _ (.wire _)), by decide, by decide, by decide, by decide, by decide, by decide⟩
+
 /-! ### Obligations on the regenerated table, and the recorded deviations -/
 
 /-- The status table extracted from the current error.go assigns to every
